@@ -172,3 +172,32 @@
 	// A byte-level run of RevokedCertParams::write_der (serial 05, symbolic reason code, time writer replaced by a recorder)
 	// was tried during the build: no answer in 1200 s. The entry writer is decided by engine S (shape, guards, GeneralizedTime)
 	// plus crl.reason.codes.
+
+	/// @ob crl.guard.crlsign.four_usages @props C08 @kind bounded @tier thorough @timeout 1800 @mem 16
+	/// @bound "issuer key usages: a list of 4 symbolic usages" @fns rcgen::CertificateRevocationListParams::signed_by
+	#[kani::proof]
+	#[kani::unwind(8)]
+	#[kani::stub(std::hash::RandomState::new, fixed_random_state)]
+	#[kani::stub(CertificateRevocationListParams::serialize_der, stub_serialize)]
+	fn crl_guard_crlsign_four() {
+		let k = kp();
+		let e: [u8; 4] = kani::any();
+		kani::assume(e[0] < 9 && e[1] < 9 && e[2] < 9 && e[3] < 9);
+		let issuer = issuer_with(vec![ku_of(e[0]), ku_of(e[1]), ku_of(e[2]), ku_of(e[3])]);
+		kani::cover!(true, "reachable");
+		let p = CertificateRevocationListParams {
+			this_update: OffsetDateTime::UNIX_EPOCH,
+			next_update: OffsetDateTime::UNIX_EPOCH + time::Duration::seconds(5),
+			crl_number: SerialNumber::from_slice(&[1]),
+			issuing_distribution_point: None,
+			revoked_certs: Vec::new(),
+			key_identifier_method: KeyIdMethod::PreSpecified(Vec::new()),
+		};
+		let r = p.signed_by(&issuer, &k);
+		let reached = unsafe { REACHED };
+		let has = e[0] == 6 || e[1] == 6 || e[2] == 6 || e[3] == 6;
+		assert!(reached == has);
+		if !has { assert!(matches!(r, Err(Error::IssuerNotCrlSigner))); }
+		core::mem::forget(r);
+		core::mem::forget(issuer);
+	}
